@@ -205,9 +205,16 @@ def project(out: Dict[str, Any], ntx: int) -> Tuple[List[str], Optional[str]]:
                 evs.append(f"TDataW {t}%nat")
             elif op == "write_file" and pcs == "hint" and e["result"] == "ok":
                 evs.append(f"TFlip {t}%nat")
-            elif op == "delete_file" and pcs == "marker" and "Transaction._finish_committed" in phase and not marked.get(t):
-                marked[t] = True
-                evs.append(f"TMarkD {t}%nat")
+            elif op == "delete_file" and pcs == "marker":
+                base = path.rsplit("/", 1)[-1]
+                is_data_marker = base.startswith("auto_") and base.endswith(".parquet.inflight")
+                known_phase = "Transaction._finish_committed" in phase or "Transaction._rollback" in phase
+                if not known_phase:
+                    return evs, (f"transaction {t} removed the in-flight marker {base} outside _finish_committed / _rollback "
+                                 f"(in {phase[-1] if phase else '?'}): protection dropped while the file may not be reachable yet")
+                if is_data_marker and "Transaction._finish_committed" in phase and not marked.get(t):
+                    marked[t] = True
+                    evs.append(f"TMarkD {t}%nat")
             elif op == "delete_file" and pcs == "data" and "Transaction._rollback" in phase:
                 evs.append(f"TRollback {t}%nat")
         elif a == "G" and any(p.startswith("GarbageCollector.") for p in phase):
@@ -291,6 +298,25 @@ def directed(ctx, txns, quick: bool):
         yield [("segments", seg)], run_case(ctx, txns, segment_chooser(seg), 5000)
 
 
+def directed_retry(ctx, txns, quick: bool):
+    """Old file + OCC retry + collector inside the retry window: transaction 0 reads its base, the clock jumps,
+    transaction 1 commits (so 0 will conflict and retry), 0 runs j more steps (into its retry), the collector runs k
+    steps, 0 finishes, the collector finishes."""
+    probe = run_case(ctx, txns, segment_chooser([("A0", 10**6), ("A1", 10**6), ("K", 10**6), ("G", 10**6)]), 5000)
+    # position of A0's base read (first pointer read inside Transaction.commit)
+    a0 = [e for e in probe["log"] if e["actor"] == "A0"]
+    begin = next((n for n, e in enumerate(a0) if "Transaction.commit" in e["phase"] and e["op"] == "read_file" and P.path_class(e["path"]) == "hint"), 4)
+    i = begin + 2          # steps: thread start + ops 0..begin performed
+    na = len(a0) + 14      # a retry adds steps
+    ng = sum(1 for a in probe["schedule"] if a == "G")
+    combos = [(j, k) for j in range(0, na) for k in range(1, ng + 1)]
+    if quick and len(combos) > 120:
+        combos = ctx.rng.sample(combos, 120)
+    for j, k in combos:
+        seg = [("A0", i), ("K", 10**6), ("A1", 10**6), ("A0", j), ("G", k), ("A0", 10**6), ("G", 10**6)]
+        yield [("segments", seg)], run_case(ctx, txns, segment_chooser(seg), 5000)
+
+
 TXSETS = [
     [{"kind": "append", "rows": [{"x": 100}]}],
     [{"kind": "append", "rows": [{"x": 100}]}, {"kind": "rollback", "rows": [{"x": 200}]}],
@@ -310,10 +336,12 @@ def run(ctx) -> None:
     quick = ctx.tier == "quick"
     exprs, metas, bad = [], [], []
     total = judged = 0
-    for ti, txns in enumerate(TXSETS[:2] if quick else TXSETS):
-        runs = list(explore(ctx, txns, 5000, 2 if quick else 3, 40 if quick else 900))
+    for ti, txns in enumerate(TXSETS):
+        runs = list(explore(ctx, txns, 5000, 2 if quick else 3, (40 if ti < 2 else 12) if quick else 900))
         if ti == 0 or not quick:
             runs += list(directed(ctx, txns, quick))
+        if ti == 2:
+            runs += list(directed_retry(ctx, txns, quick))
         for k in range(10 if quick else 200):
             seed = ctx.rng.randrange(1 << 30)
             runs.append(([("random", seed)], run_case(ctx, txns, lambda sc, seed=seed: S.random_chooser(_r.Random(seed), 0.4), 5000)))
